@@ -369,7 +369,7 @@ def _step(seed, schema, frame, op, is_polars, add):
     return res, newframe
 
 
-def _explore(seed, depth):
+def _explore(seed, depth, shard=(0, 1)):
     viol = {}
 
     def add(clause, key, detail):
@@ -407,12 +407,16 @@ def _explore(seed, depth):
                     seen[key] = prog + (op,)
                     nxt.append(prog + (op,))
         level = nxt
+        if d == 0 and shard[1] > 1:
+            # deeper levels are partitioned over shards by the first operation of the program
+            level = [p for i, p in enumerate(level) if i % shard[1] == shard[0]]
     return viol, len(seen), transitions
 
 
 def plan(tier, seed):
     depth = 2 if tier == "quick" else 3
-    return {"cases": [{"seed": s, "depth": depth} for s in SEEDS], "exhaustive": True,
+    nsh = 1 if tier == "quick" else 16
+    return {"cases": [{"seed": s, "depth": depth, "shard": [i, nsh]} for s in SEEDS for i in range(nsh)], "exhaustive": True,
             "bounds": {"program_length": depth, "seeds": SEEDS, "update_attributes": [u[0] for u in UPDATES]},
             "rule": "BFS over transformation programs; state = fingerprint of the derived schema (deduplicated); transitions = op "
                     "applications, each checked for receiver immutability, attribute preservation, the commuting square on the probe "
@@ -420,7 +424,7 @@ def plan(tier, seed):
 
 
 def run_case(case):
-    viol, states, transitions = _explore(case["seed"], case["depth"])
+    viol, states, transitions = _explore(case["seed"], case["depth"], tuple(case.get("shard", (0, 1))))
     v = [{"clause": c, "key": k, "detail": d[:700]} for (c, k), d in viol.items()]
     return {"viol": v, "states": states, "transitions": transitions, "execs": transitions, "nontrivial": True,
             "nontrivial_n": transitions, "outcome": f"{case['seed']}:states={states}"}
